@@ -365,6 +365,9 @@ struct Req {
     gids: Vec<u32>,
     unicodes: Vec<u32>,
     flags: u16,
+    /// `None`: the recipe of c17.rs (name ids 0..=6, language 0x0409)
+    name_ids: Option<Vec<u16>>,
+    name_langs: Option<Vec<u16>>,
 }
 
 /// the plan recipe of c17.rs `make_plan`
@@ -383,9 +386,21 @@ fn make_plan(font: &FontRef, req: &Req) -> Plan {
     let mut layout_features = IntSet::<Tag>::empty();
     layout_features.extend(klippa::DEFAULT_LAYOUT_FEATURES.iter().copied());
     let mut name_ids = IntSet::<NameId>::empty();
-    name_ids.insert_range(NameId::from(0)..=NameId::from(6));
+    match &req.name_ids {
+        None => name_ids.insert_range(NameId::from(0)..=NameId::from(6)),
+        Some(v) => v.iter().for_each(|i| {
+            name_ids.insert(NameId::from(*i));
+        }),
+    }
     let mut name_languages = IntSet::<u16>::empty();
-    name_languages.insert(0x0409);
+    match &req.name_langs {
+        None => {
+            name_languages.insert(0x0409);
+        }
+        Some(v) => v.iter().for_each(|l| {
+            name_languages.insert(*l);
+        }),
+    }
     Plan::new(
         &gids,
         &unicodes,
@@ -400,12 +415,19 @@ fn make_plan(font: &FontRef, req: &Req) -> Plan {
 }
 
 fn input_str(label: &str, req: &Req) -> String {
-    format!(
+    let mut s = format!(
         "font={label} flags={:#x} gids=[{}] unicodes=[{}]",
         req.flags,
         join(&req.gids),
         req.unicodes.iter().map(|u| format!("{u:x}")).collect::<Vec<_>>().join(" ")
-    )
+    );
+    if let Some(v) = &req.name_ids {
+        s.push_str(&format!(" name_ids=[{}]", join(v)));
+    }
+    if let Some(v) = &req.name_langs {
+        s.push_str(&format!(" name_languages=[{}]", v.iter().map(|l| format!("{l:#x}")).collect::<Vec<_>>().join(" ")));
+    }
+    s
 }
 
 fn table<'a>(font: &FontRef<'a>, tag: &[u8; 4]) -> Option<&'a [u8]> {
@@ -815,7 +837,7 @@ fn rand_request(r: &mut Rng, n: usize, cmap_cps: &[u32]) -> Req {
         unicodes.sort();
         unicodes.dedup();
     }
-    Req { gids, unicodes, flags }
+    Req { gids, unicodes, flags, name_ids: None, name_langs: None }
 }
 
 fn corpus_fonts() -> Vec<(String, Vec<u8>)> {
@@ -895,7 +917,7 @@ fn run_gvar(cfg: &Config, s: &mut Session, r: &mut Rng) {
             for flags in [0u16, F_RETAIN_GIDS, F_NOTDEF_OUTLINE] {
                 // with the notdef outline kept its 20 bytes count: shrink the kept range by dropping nothing, the
                 // neighbouring targets cover the other side of the limit
-                run_request(s, &fc, &Req { gids: keep.clone(), unicodes: vec![], flags });
+                run_request(s, &fc, &Req { gids: keep.clone(), unicodes: vec![], flags, name_ids: None, name_langs: None });
             }
         }
     }
@@ -926,9 +948,9 @@ fn run_gvar(cfg: &Config, s: &mut Session, r: &mut Rng) {
             gids.push(n as u32 - 1 - r.below(3) as u32);
             gids.sort();
             gids.dedup();
-            run_request(s, &fc, &Req { gids, unicodes: vec![], flags });
+            run_request(s, &fc, &Req { gids, unicodes: vec![], flags, name_ids: None, name_langs: None });
         }
-        run_request(s, &fc, &Req { gids: (0..n as u32).collect(), unicodes: vec![], flags: F_NOTDEF_OUTLINE });
+        run_request(s, &fc, &Req { gids: (0..n as u32).collect(), unicodes: vec![], flags: F_NOTDEF_OUTLINE, name_ids: None, name_langs: None });
     }
 
     // (β4) hostile headers: shared tuples that do not fit the table; sizes that do not fit u32
@@ -986,7 +1008,7 @@ fn run_gvar(cfg: &Config, s: &mut Session, r: &mut Rng) {
         let data = build_font(&sf);
         let fc = Ctx { label: sf.name.clone(), data: &data, valid: Some(sf.valid.clone()), draw: false };
         for (top, flags) in [(4000u32, F_RETAIN_GIDS), (4075, F_RETAIN_GIDS | F_NOTDEF_OUTLINE), (4090, F_RETAIN_GIDS), (6100, F_RETAIN_GIDS), (8170, F_RETAIN_GIDS), (8190, F_RETAIN_GIDS), (9999, F_RETAIN_GIDS), (9999, 0)] {
-            run_request(s, &fc, &Req { gids: vec![1, 2, 3, top], unicodes: vec![], flags });
+            run_request(s, &fc, &Req { gids: vec![1, 2, 3, top], unicodes: vec![], flags, name_ids: None, name_langs: None });
         }
     }
 
@@ -1006,7 +1028,7 @@ fn run_gvar(cfg: &Config, s: &mut Session, r: &mut Rng) {
             let req = rand_request(r, n, &cps);
             run_request(s, &fc, &req);
         }
-        run_request(s, &fc, &Req { gids: (0..n as u32).collect(), unicodes: vec![], flags: F_NOTDEF_OUTLINE });
+        run_request(s, &fc, &Req { gids: (0..n as u32).collect(), unicodes: vec![], flags: F_NOTDEF_OUTLINE, name_ids: None, name_langs: None });
     }
 }
 
@@ -1399,6 +1421,14 @@ fn rand_meta_request(r: &mut Rng, n: usize, cps: &[u32]) -> Req {
     let flags = *r.pick(&[0u16, 0, F_NAME_LEGACY, F_GLYPH_NAMES, F_NO_PRUNE, F_GLYPH_NAMES | F_RETAIN_GIDS, F_NAME_LEGACY | F_NO_PRUNE | F_GLYPH_NAMES, F_RETAIN_GIDS, F_GLYPH_NAMES | F_NOTDEF_OUTLINE]);
     let mut req = rand_request(r, n, cps);
     req.flags = flags;
+    match r.below(4) {
+        0 => req.name_langs = Some(vec![0x0409, 0x0407, 0]),
+        1 => {
+            req.name_langs = Some(vec![0, 0x0407, 0x0409, 0x0411]);
+            req.name_ids = Some(vec![1, 2, 4, 13, 256, 257, 300]);
+        }
+        _ => {}
+    }
     if !cps.is_empty() && r.chance(2, 3) {
         for _ in 0..r.below(5) {
             req.unicodes.push(*r.pick(cps));
